@@ -291,6 +291,15 @@ func cmp19794(p string, g *iso19794.ISO19794, e reflds.TemplateView, d *diffs) {
 		for k, gp := range gi.Features {
 			ep := ef.Points[k]
 			if gp.Type != ep.Type || gp.MajorPoint != ep.Major || gp.MinorPoint != ep.Minor || gp.X != ep.X || gp.Y != ep.Y {
+				// The known finding is ONE specific misreading of the right 8-byte block (type, major, minor, x, y, 1 reserved
+				// instead of type, point-code, x, y, 2 reserved). Anything else - e.g. the block of another face or of an
+				// earlier parse - is a different defect and must not hide behind that key.
+				blk := [8]byte{ep.Type, ep.Major<<4 | ep.Minor, byte(ep.X >> 8), byte(ep.X), byte(ep.Y >> 8), byte(ep.Y), 0, 0}
+				if !(gp.Type == blk[0] && gp.MajorPoint == blk[1] && gp.MinorPoint == blk[2] && gp.X == uint16(blk[3])<<8|uint16(blk[4]) && gp.Y == uint16(blk[5])<<8|uint16(blk[6])) {
+					d.add("dg2/iso19794/feature-point-not-decoded-from-its-own-block", "%s.feature[%d] = {type %d major %d minor %d x %d y %d} is not any reading of this face's block %x",
+						q, k, gp.Type, gp.MajorPoint, gp.MinorPoint, gp.X, gp.Y, blk)
+					continue
+				}
 				d.add("dg2/iso19794/feature-point-fields", "%s.feature[%d] = {type %d major %d minor %d x %d y %d}, the record encodes {type %d point %d.%d x %d y %d} (ISO/IEC 19794-5 §5.6: type(1) point-code(1)=major<<4|minor x(2) y(2) reserved(2))",
 					q, k, gp.Type, gp.MajorPoint, gp.MinorPoint, gp.X, gp.Y, ep.Type, ep.Major, ep.Minor, ep.X, ep.Y)
 			}
@@ -732,6 +741,28 @@ func dedupe(d diffs) diffs {
 	return out
 }
 
+var seedCache = map[reflds.Kind][][]byte{}
+
+func seedsOfKind(k reflds.Kind) [][]byte {
+	if v, ok := seedCache[k]; ok {
+		return v
+	}
+	var out [][]byte
+	for _, sd := range reflds.Seeds() {
+		if sd.Kind == k {
+			out = append(out, sd.Bytes)
+		}
+	}
+	// for DG2 add a record with feature points and two faces so that per-record scratch state is exercised
+	reflds.Enumerate(k, false, func(f reflds.File) {
+		if len(out) < 6 {
+			out = append(out, f.Bytes)
+		}
+	})
+	seedCache[k] = out
+	return out
+}
+
 // checkFile runs every per-file oracle. accepted reports whether the file's own constructor accepted it.
 func checkFile(f reflds.File) (d diffs, accepted bool) {
 	k := lc(f.Kind)
@@ -747,7 +778,8 @@ func checkFile(f reflds.File) (d diffs, accepted bool) {
 		d.add(k+"/well-formed-file-rejected", "%s rejected a well-formed file (%s): %v", ct.name, f.Label, err)
 	} else {
 		accepted = true
-		if pv, _ := vc.Guard(func() { d = append(d, compare(f, obj)...) }); pv != nil {
+		nCmp := -1
+		if pv, _ := vc.Guard(func() { first := compare(f, obj); nCmp = len(first); d = append(d, first...) }); pv != nil {
 			d.add("panic/view/"+k, "reading the view of %s panicked: %v", ct.name, pv)
 		}
 		// the same bytes give the same view
@@ -755,6 +787,17 @@ func checkFile(f reflds.File) (d diffs, accepted bool) {
 		if err2 != nil || !reflect.DeepEqual(obj, obj2) {
 			d.add(k+"/same-bytes-different-view", "%s on the same bytes twice gave different results (second error: %v)", ct.name, err2)
 		}
+		// state must not survive between calls: after LATER parses of other files of the same kind (the generator's seed
+		// files) the view obtained from THIS file still compares equal to its expectation
+		nBefore := len(d)
+		for _, sd := range seedsOfKind(f.Kind) {
+			vc.Guard(func() { ct.call(bytes.Clone(sd)) })
+		}
+		var after diffs
+		if pv, _ := vc.Guard(func() { after = compare(f, obj) }); nCmp >= 0 && (pv != nil || len(after) != nCmp) {
+			d.add(k+"/earlier-view-changed-by-a-later-parse", "the view returned by %s for one file changed after other files of the same kind were parsed (%d differences now)", ct.name, len(after))
+		}
+		_ = nBefore
 		// the view belongs to a private copy: overwriting the caller's buffer afterwards changes nothing
 		for i := range in {
 			in[i] ^= 0xA5
